@@ -76,6 +76,13 @@ def mutations(ty, v):
                 # (a present value whose own encoding is `null` — Some(newtype(nil)), the Some(x)=null exclusion — is that same bare null)
                 if not dg.absent(f, x) and dg.enc_field_value(f, x, None) != b"\xf6":
                     out.append((("ftag", pos, "missing"), None))
+        # one level down: a mandatory field missing in the value of THIS field (a struct or a variant body, directly or behind an Option
+        # that is present) is an error of the whole, whether this field is optional or not
+        it, ix = (f.ty.e, x[1]) if f.ty.kind == "opt" and x is not None and f.codec != "x" else (f.ty, x)
+        if f.codec != "x" and it.kind in ("st", "en") and not dg.absent(f, x) and not (it.kind == "st" and it.transparent):
+            for m2, cls2 in mutations(it, ix):
+                if m2[0] == "drop" and cls2 == "missing":
+                    out.append((("inner", pos, m2), "missing"))
         if not dg.is_optional(f):
             rest = [g.idx for g, _ in present if g is not f]
             cls = "missing" if enc == "m" or not rest or max(rest) < f.idx else None
